@@ -517,6 +517,14 @@ MUTANTS = [
     dict(name='c04-fence-after-speculative-copy', prop='C04', clause='D4', edits=[
         (TGC_CPP, "        atomic_fence_seq_cst();\n    }\n    if (ctx.my_parent->my_parent) {", "    }\n    if (ctx.my_parent->my_parent) {"),
         (TGC_CPP, "        register_with(ctx, td); // Issues full fence\n\n", "        atomic_fence_seq_cst();\n        register_with(ctx, td); // Issues full fence\n\n")]),
+    dict(name='c04-binding-overwrites-requested-cancellation', prop='C04', clause='D2', edits=[
+        (TGC_CPP, """        if (std::uint32_t parent_state = ctx.my_parent->my_cancellation_requested.load(std::memory_order_relaxed)) {
+            ctx.my_cancellation_requested.store(parent_state, std::memory_order_relaxed);
+        }
+    }
+}""", """        ctx.my_cancellation_requested.store(ctx.my_parent->my_cancellation_requested.load(std::memory_order_relaxed), std::memory_order_relaxed);
+    }
+}""")]),
     dict(name='c04-reset-elsewhere', prop='C04', clause='D2', edits=[
         (TGC_CPP, "bool task_group_context_impl::is_group_execution_cancelled(const d1::task_group_context& ctx) {\n",
          "bool task_group_context_impl::is_group_execution_cancelled(const d1::task_group_context& ctx) {\n    if (ctx.my_parent && !ctx.my_parent->my_cancellation_requested.load(std::memory_order_relaxed)) const_cast<d1::task_group_context&>(ctx).my_cancellation_requested.store(0, std::memory_order_relaxed);\n")]),
@@ -1004,6 +1012,14 @@ BENIGN = [
         (TGC_CPP, "        atomic_fence_seq_cst();\n    }\n    if (ctx.my_parent->my_parent) {", "    }\n    if (ctx.my_parent->my_parent) {")]),
     dict(name='c04-b-fence-unconditional', prop='C04', edits=[
         (TGC_CPP, "        atomic_fence_seq_cst();\n    }\n    if (ctx.my_parent->my_parent) {", "    }\n    std::atomic_thread_fence(std::memory_order_seq_cst);\n    if (ctx.my_parent->my_parent) {")]),
+    dict(name='c04-b-binding-ors-own-state', prop='C04', edits=[
+        (TGC_CPP, """        if (std::uint32_t parent_state = ctx.my_parent->my_cancellation_requested.load(std::memory_order_relaxed)) {
+            ctx.my_cancellation_requested.store(parent_state, std::memory_order_relaxed);
+        }
+    }
+}""", """        ctx.my_cancellation_requested.fetch_or(ctx.my_parent->my_cancellation_requested.load(std::memory_order_relaxed), std::memory_order_relaxed);
+    }
+}""")]),
     dict(name='c05-b-ratio-operands-commuted', prop='C05', edits=[('include/oneapi/tbb/blocked_range2d.h',
         "        if ( my_rows.size()*double(my_cols.grainsize()) < my_cols.size()*double(my_rows.grainsize()) ) {",
         "        if ( double(my_cols.grainsize())*my_rows.size() < double(my_rows.grainsize())*my_cols.size() ) {")]),
